@@ -29,6 +29,8 @@ for seed in seeds:
                         continue
                     cell = parts[1]
                     f = cell.split("#")[0]
+                    if cell.startswith("B/"):
+                        f = "composed-shard-" + cell.split("/")[1]
                     fam[f][v["sig"]] = v["what"]
 led = os.path.join(VERIF, "known_findings.txt")
 cur = open(led).read()
